@@ -531,6 +531,10 @@ FMT_NOYEAR = ["%b %d %H:%M:%S", "%m-%d %H:%M:%S", "%m/%d %H:%M:%S", "%d %b %H:%M
 # list / dict formats: alternatives that cannot be confused with one another
 LIST_YEAR = [["%Y-%m-%d %H:%M:%S", "%d/%b/%Y:%H:%M:%S"], ["%d/%b/%Y:%H:%M:%S", "%Y%m%d-%H%M%S"],
              ["%Y-%m-%dT%H:%M:%S", "%a %b %d %H:%M:%S %Y"]]
+# a list / dict that MIXES a format with a year and one without (each stamp is rendered in the format of its kind)
+LIST_MIXED = [["%Y-%m-%d %H:%M:%S", "%b %d %H:%M:%S"], ["%d/%b/%Y:%H:%M:%S", "%m/%d %H:%M:%S"],
+              ["%Y-%m-%dT%H:%M:%S", "%d %b %H:%M:%S"], ["%Y%m%d-%H%M%S", "%b %d %H:%M:%S"],
+              ["%y%m%d %H:%M:%S", "%b %d %H:%M:%S"]]
 LIST_NOYEAR = [["%b %d %H:%M:%S", "%m/%d %H:%M:%S"], ["%m-%d %H:%M:%S", "%d %b %H:%M:%S"]]
 YEAR_SHIFTS = [-16, -12, -8, -4, 0, 0, 4, 8, 20, 40]         # 2003..2061: two-digit years stay unambiguous
 
@@ -564,12 +568,14 @@ def run_after(inp, rng, stats):
     slots = sorted(rng.sample(range(0, 86400), 3))
     if rng.random() < 0.3:
         slots = [0, rng.randrange(1, 86399), 86399]
-    kind = rng.choice(["str", "str", "list", "dict"])
+    mixed = bool(inp.get("mx"))
+    kind = rng.choice(["list", "dict"]) if mixed else rng.choice(["str", "str", "list", "dict"])
     if kind == "str":
         fmts = [rng.choice(FMT_YEAR if hy else FMT_NOYEAR)]
         tf = fmts[0]
     else:
-        fmts = rng.choice(LIST_YEAR if hy else LIST_NOYEAR)
+        fmts = rng.choice(LIST_MIXED if mixed else (LIST_YEAR if hy else LIST_NOYEAR))
+        fmt_year, fmt_noyear = fmts[0], fmts[1]
         if rng.random() < 0.5:
             fmts = fmts[::-1]
         tf = list(fmts) if kind == "list" else dict(("fmt_%d" % i, f) for i, f in enumerate(fmts))
@@ -597,9 +603,10 @@ def run_after(inp, rng, stats):
         body = " ".join(words)
         if ln["has"]:
             # a year-less stamp is rendered from its month / day in the sought year (never 29 February)
-            dt = stamp(ln["y"] if hy else T["y"], ln["mo"], ln["d"], ln["s"], slots)
+            dt = stamp(ln["y"] or T["y"], ln["mo"], ln["d"], ln["s"], slots)
             ords.append(dt.toordinal())
-            ts = fmt_stamp(dt, rng.choice(fmts), rng, spacepad)
+            use = rng.choice(fmts) if not mixed else (fmt_year if ln["y"] else fmt_noyear)
+            ts = fmt_stamp(dt, use, rng, spacepad)
             if (dt.toordinal() == Tdt.toordinal()) and ((ln["s"] >= T["s"]) != (dt >= Tdt)):
                 raise Machinery("slot rendering is not order preserving")
             style = rng.randrange(4)
@@ -709,7 +716,8 @@ def rand_date(rng, year, allow_feb29):
 
 
 def rand_after(rng):
-    hy = rng.random() < 0.4
+    mode = rng.choice(["year", "year", "noyear", "noyear", "noyear", "mixed", "mixed"])
+    hy = mode == "year"
     filt = rng.random() < 0.4
     n = rng.randrange(0, 11)
     ty = rng.choice([2015, 2016, 2017, 2019, 2020, 2020, 2021, 2023, 2024, 2024, 2028])
@@ -727,16 +735,20 @@ def rand_after(rng):
         else:
             y = rng.choice([ty - 1, ty, ty, ty, ty + 1])
             mo, d = rand_date(rng, y, hy)
-        if not hy and (mo, d) == (2, 29):
+        with_year = hy or (mode == "mixed" and rng.random() < 0.5)
+        if with_year and (mo, d) == (2, 29) and not (y % 4 == 0):
             d = 28
-        lines.append(dict(has=True, y=(y if hy else 0), mo=mo, d=d, s=rng.randrange(3), m=rng.random() < 0.6))
+        if not with_year and (mo, d) == (2, 29):
+            d = 28
+        lines.append(dict(has=True, y=(y if with_year else 0), mo=mo, d=d, s=rng.randrange(3), m=rng.random() < 0.6))
     if not filt:
         for l in lines:
             l["m"] = True
-    return dict(lines=lines, T=T, hy=hy, filt=filt, concrete=True)
+    return dict(lines=lines, T=T, hy=hy, mx=(mode == "mixed"), filt=filt, concrete=True)
 
 
-RUN = {"cmd": run_cmd, "doc": run_doc, "search": run_search, "after": run_after, "year": run_after}
+RUN = {"cmd": run_cmd, "doc": run_doc, "search": run_search, "after": run_after, "year": run_after,
+       "mixed": run_after}
 RAND = {"cmd": rand_cmd, "doc": rand_doc, "search": rand_search, "after": rand_after}
 
 
